@@ -193,7 +193,7 @@ def program(rng, size='small', big_gap=False, aligns=True, data=True, consts=Tru
     return '\n'.join(out) + '\n', meta
 
 
-NSCEN = 22
+NSCEN = 23
 
 
 def scenarios(rng, n):
@@ -387,6 +387,14 @@ def scenarios(rng, n):
             form = [('addi x1, x0, {} - L', 2047 + 4 * k), ('addi x1, x0, L - {}', 2048 + 2 * k + 2), ('db {} - L', 127 + 4 * k),
                     ('addi x1, x0, %position(L, -{})', 2048 + 2 * k + 2)][j % 4]
             src = 'add x8, x8, x9\n' * k + 'L:\n' + form[0].format(form[1]) + '\n'
+            add(src)
+        elif t == 22:
+            # known finding K3: a CONSTANT (an absolute position) as the target of a branch / jump or inside %offset, with the distance at
+            # the edge of the range: what compresses in front of the line moves the LINE, the target stays, the distance grows
+            k = rng.choice([1, 2, 3])
+            form = [('beq x0, x0, K', 4094 + 4 * k), ('bne x8, x9, K', 4094 + 4 * k), ('jal x1, K', 1048574 + 4 * k),
+                    ('addi x1, x0, %offset(K)', 2047 + 4 * k), ('bnez x8, K', 4094 + 4 * k), ('j K', 1048574 + 4 * k)][j % 6]
+            src = 'K = {}\n'.format(form[1]) + 'add x8, x8, x9\n' * k + form[0] + '\n'
             add(src)
         else:
             src = 'start:\nauipc x5, %hi(%offset(start))\njalr x0, x5, %lo(%offset(start))\nlui x6, %hi(start)\nlw x7, x6, %lo(start)\n'
